@@ -519,23 +519,27 @@ func checkInitialFeeTargetIsLowerBound(c *Ctx, fn *ssa.Function) {
 			minW = weights[i]
 		}
 	}
-	loops := loopsOf(fn)
 	n := 0
-	for _, call := range callsNamed(fn, "EstimateVirtualSize") {
-		if innermostLoopOf(loops, call) != nil {
+	for _, site := range estimatorSites(p, fn) {
+		if site.inLoop {
 			continue
 		}
+		call := site.call
 		n++
 		var total int64
 		okConst := true
-		for i, w := range weights {
-			k, isK := constInt(call.Call.Args[i])
-			if !isK {
-				okConst = false
-				continue
+		site.under(p, func() {
+			for i, w := range weights {
+				// (read under the frames of the parts the call was reached through: a count may be a field of a small
+				// struct literal the caller built)
+				l := p.linearize(call.Call.Args[i], 0)
+				if len(l.Coef) != 0 {
+					okConst = false
+					continue
+				}
+				total += l.Konst * w
 			}
-			total += k * w
-		}
+		})
 		c.Check("C07-R3", "initial-fee-target-is-lower-bound", call.Pos(), okConst && total <= minW,
 			fmt.Sprintf("the fee the author demands before it has seen any coin is estimated for inputs weighing %d weight units, more than the lightest single input (%d): coins of a lighter kind that cover the outputs plus their own required fee are refused with 'insufficient funds'", total, minW))
 	}
@@ -543,17 +547,13 @@ func checkInitialFeeTargetIsLowerBound(c *Ctx, fn *ssa.Function) {
 }
 
 func checkCountsPerPass(c *Ctx, fn *ssa.Function) {
+	p := c.P
 	n := 0
-	for _, est := range callsNamed(fn, "EstimateVirtualSize") {
-		var outer *Loop
-		for _, l := range loopsOf(fn) {
-			if l.Blocks[est.Block()] && (outer == nil || len(l.Blocks) > len(outer.Blocks)) {
-				outer = l
-			}
-		}
-		if outer == nil {
+	for _, site := range estimatorSites(p, fn) {
+		if !site.inLoop {
 			continue
 		}
+		est := site.call
 		for ai, a := range est.Call.Args {
 			if b, ok := a.Type().Underlying().(*types.Basic); !ok || b.Info()&types.IsInteger == 0 || ai >= 4 {
 				continue
@@ -563,15 +563,18 @@ func checkCountsPerPass(c *Ctx, fn *ssa.Function) {
 			seen := map[ssa.Value]bool{}
 			var walk func(v ssa.Value)
 			walk = func(v ssa.Value) {
-				v = stripConv(v)
+				v = p.throughFrames(v)
 				if seen[v] {
 					return
 				}
 				seen[v] = true
 				switch x := v.(type) {
 				case *ssa.Phi:
-					if x.Block() == outer.Header {
-						carried = true
+					// a merge at the header of a `for` loop (the retry loop; the counting loops are range loops)
+					for _, l := range loopsOf(x.Parent()) {
+						if l.Kind == "for" && x.Block() == l.Header {
+							carried = true
+						}
 					}
 					for _, e := range x.Edges {
 						walk(e)
@@ -581,7 +584,7 @@ func checkCountsPerPass(c *Ctx, fn *ssa.Function) {
 					walk(x.Y)
 				}
 			}
-			walk(a)
+			site.under(p, func() { walk(a) })
 			c.Check("C07-R3", fmt.Sprintf("input-kind-count-recomputed-every-pass:arg%d", ai), est.Pos(), !carried,
 				"an input-kind count handed to EstimateVirtualSize is carried around the author's retry loop instead of being recomputed from zero for the inputs of this pass: after a retry the fee is computed for the inputs of all passes together (overpayment, or a false 'insufficient funds')")
 		}
@@ -719,94 +722,144 @@ func checkAuthor(c *Ctx, fn *ssa.Function) {
 	if !okFee {
 		return
 	}
-	restL := p.linearize(rest, 0)
-	wantRest := "+1*call:SumOutputValues#? "
-	_ = wantRest
-	inAmt := ""
-	for k, v := range restL.Coef {
-		if v == 1 && strings.HasPrefix(k, "call:dynamic#0") {
-			inAmt = k
+	// the function the amounts are computed in: NewUnsignedTransaction itself, or the private part that holds one pass
+	// of its retry loop; there its parameters stand for what the (only) call site passes (frames)
+	body := valueParent(sub)
+	var site *ssa.Call
+	if body != nil && body != fn {
+		sites := p.realCallers(body)
+		if len(sites) == 1 {
+			site, _ = sites[0].(*ssa.Call)
+		}
+		if site == nil || outermost(site.Parent()) != fn {
+			c.Check("C07-R3", "change-amount-computed-in-author", newTxOut.Pos(), false, "the change amount is computed in a function that is not a private part of NewUnsignedTransaction with one call site (undecided)")
+			return
 		}
 	}
-	tgt := restL.Coef["call:SumOutputValues(+1*param#0 +0)"]
-	c.Check("C07-R3", "change-amount-operands", newTxOut.Pos(), inAmt != "" && tgt == -1 && len(restL.Coef) == 2 && restL.Konst == 0,
-		"the change amount is not computed from the fetched input total minus the sum of the requested outputs: "+restL.String())
-	// the fee's size argument: EstimateVirtualSize over counted kinds (phis), outputs param, changeSource.ScriptSize
+	if body == nil {
+		body = fn
+	}
+	inFrame := func(f func()) {
+		if site != nil {
+			p.withFrame(body, site.Call.Args, f)
+		} else {
+			f()
+		}
+	}
+	var restL Lin
+	inAmt := ""
+	inFrame(func() {
+		restL = p.linearize(rest, 0)
+		for k, v := range restL.Coef {
+			if v == 1 && strings.HasPrefix(k, "call:dynamic#0") {
+				inAmt = k
+			}
+		}
+		tgt := restL.Coef["call:SumOutputValues(+1*param#0 +0)"]
+		c.Check("C07-R3", "change-amount-operands", newTxOut.Pos(), inAmt != "" && tgt == -1 && len(restL.Coef) == 2 && restL.Konst == 0,
+			"the change amount is not computed from the fetched input total minus the sum of the requested outputs: "+restL.String())
+	})
+	isFnParam := func(v ssa.Value, idx int) bool {
+		var r ssa.Value
+		inFrame(func() { r = p.throughFrames(v) })
+		prm, ok := r.(*ssa.Parameter)
+		return ok && prm.Parent() == fn && paramIndex(fn, prm) == idx
+	}
+	// the fee's size argument: EstimateVirtualSize over counted kinds, outputs param, changeSource.ScriptSize
 	okSize := false
 	if len(feeCall.Call.Args) == 2 {
-		if sz, ok := feeCall.Call.Args[1].(*ssa.Call); ok && calleeShort(&sz.Call) == "EstimateVirtualSize" {
-			// the four counts must be derived from the scripts actually fetched: counters of a loop ranging over the
-			// fetched scripts, or results of a helper that is given those scripts
-			isScripts := func(v ssa.Value) bool {
-				sl := &Slicer{P: p, KeepExtract: true}
-				for _, o := range sl.Origins(v) {
-					if ex, ok := o.(*ssa.Extract); ok && ex.Index == 3 {
-						if cc, ok := ex.Tuple.(*ssa.Call); ok && cc.Call.StaticCallee() == nil && !cc.Call.IsInvoke() {
-							return true
+		sz, _ := feeCall.Call.Args[1].(*ssa.Call)
+		var wrapper *ssa.Call
+		// the estimator may be called through a private part (a method of the struct that holds the counts)
+		if sz != nil && calleeShort(&sz.Call) != "EstimateVirtualSize" {
+			if h := sz.Call.StaticCallee(); h != nil && len(h.Blocks) > 0 && fnPkgPath(h) == fnPkgPath(fn) {
+				var inner *ssa.Call
+				nRet := 0
+				for _, b := range h.Blocks {
+					if r, ok := b.Instrs[len(b.Instrs)-1].(*ssa.Return); ok {
+						nRet++
+						if len(r.Results) == 1 {
+							inner, _ = r.Results[0].(*ssa.Call)
 						}
 					}
+				}
+				if nRet == 1 && inner != nil && calleeShort(&inner.Call) == "EstimateVirtualSize" {
+					wrapper, sz = sz, inner
+				}
+			}
+		}
+		if sz != nil && calleeShort(&sz.Call) == "EstimateVirtualSize" && len(sz.Call.Args) >= 5 {
+			// the four counts must be counted over the scripts actually fetched: every increment they are built from
+			// sits in a loop ranging over (what resolves to) the scripts result of the input source
+			isScripts := func(v ssa.Value) bool {
+				for hops := 0; hops < 4; hops++ {
+					sl := &Slicer{P: p, KeepExtract: true}
+					for _, o := range sl.Origins(v) {
+						if ex, ok := o.(*ssa.Extract); ok && ex.Index == 3 {
+							if cc, ok := ex.Tuple.(*ssa.Call); ok && cc.Call.StaticCallee() == nil && !cc.Call.IsInvoke() {
+								return true
+							}
+						}
+					}
+					// a parameter of a private counting helper: what its call site passes
+					prm, ok := stripConv(v).(*ssa.Parameter)
+					if !ok {
+						return false
+					}
+					nv := p.resolveParam(prm)
+					if nv == ssa.Value(prm) {
+						return false
+					}
+					v = nv
 				}
 				return false
 			}
-			loops := loopsOf(fn)
-			counted := 0
-			fieldsSeen := map[[2]interface{}]bool{}
-			for i := 0; i < 4; i++ {
-				switch a := sz.Call.Args[i].(type) {
-				case *ssa.Phi:
-					for _, l := range loops {
-						if l.Kind != "for" && l.OverVal != nil && isScripts(l.OverVal) && (l.Blocks[a.Block()] || l.Header.Dominates(a.Block())) {
-							counted++
-							break
-						}
+			tracer := newCountTracer(p)
+			// the instruction runs once per fetched script: inside a loop over the scripts, or in a private part (the
+			// method that classifies one script) all of whose calls are
+			var perScript func(ins ssa.Instruction, depth int) bool
+			perScript = func(ins ssa.Instruction, depth int) bool {
+				f := ins.Parent()
+				if l := innermostLoopOf(loopsOf(f), ins); l != nil {
+					if l.Kind != "for" && l.OverVal != nil && isScripts(l.OverVal) {
+						return true
 					}
-				case *ssa.Extract:
-					if hc, ok := a.Tuple.(*ssa.Call); ok {
-						for _, ha := range hc.Call.Args {
-							if isScripts(ha) {
-								counted++
-								break
-							}
-						}
-					}
-				default:
-					// a field of the struct a counting helper returned (counts := countInputTypes(scripts); counts.p2pkh):
-					// four different fields of one result
-					if _, _, base, okf := fieldOf(sz.Call.Args[i]); okf {
-						fidx := -1
-						switch y := sz.Call.Args[i].(type) {
-						case *ssa.Field:
-							fidx = y.Field
-						case *ssa.UnOp:
-							if fa, ok := y.X.(*ssa.FieldAddr); ok {
-								fidx = fa.Field
-							}
-						}
-						var hc *ssa.Call
-						switch y := base.(type) {
-						case *ssa.Call:
-							hc = y
-						case *ssa.Alloc:
-							if sts := storesTo(y); len(sts) == 1 {
-								hc, _ = sts[0].Val.(*ssa.Call)
-							}
-						}
-						if hc != nil && fidx >= 0 && !fieldsSeen[[2]interface{}{hc, fidx}] {
-							for _, ha := range hc.Call.Args {
-								if isScripts(ha) {
-									fieldsSeen[[2]interface{}{hc, fidx}] = true
-									counted++
-									break
-								}
-							}
-						}
+					return loopBoundIs(p, l, isScripts) // `for i := 0; i < len(scripts); i++`
+				}
+				if depth >= 2 || f.Object() == nil || f.Object().Exported() {
+					return false
+				}
+				sites := p.realCallers(f)
+				for _, cs := range sites {
+					if !perScript(cs, depth+1) {
+						return false
 					}
 				}
+				return len(sites) > 0
 			}
-			_, isParam := sz.Call.Args[4].(*ssa.Parameter)
-			okSize = counted == 4 && isParam
+			counted := 0
+			for i := 0; i < 4; i++ {
+				incs := tracer(sz.Call.Args[i], 0, map[ssa.Value]bool{})
+				okArg := len(incs) > 0
+				for _, inc := range incs {
+					if !perScript(inc, 0) {
+						okArg = false
+					}
+				}
+				if okArg {
+					counted++
+				}
+			}
+			okOut := false
+			check := func() { okOut = isFnParam(sz.Call.Args[4], 0) }
+			if wrapper != nil {
+				inFrame(func() { p.withFrame(wrapper.Call.StaticCallee(), wrapper.Call.Args, check) })
+			} else {
+				check()
+			}
+			okSize = counted == 4 && okOut
 		}
-		if prm, ok := feeCall.Call.Args[0].(*ssa.Parameter); !ok || paramIndex(fn, prm) != 1 {
+		if !isFnParam(feeCall.Call.Args[0], 1) {
 			okSize = false
 		}
 	}
@@ -814,21 +867,48 @@ func checkAuthor(c *Ctx, fn *ssa.Function) {
 		"the required fee is not FeeForSerializeSize(requested rate, EstimateVirtualSize(counted p2pkh, p2tr, p2wpkh, nested, requested outputs, change script size))")
 	// retry test compares remainder with the SAME fee value, and retargets with it
 	okRetry, okRetarget := false, false
-	for _, b := range fn.Blocks {
-		if len(b.Instrs) == 0 {
-			continue
-		}
-		iff, ok := b.Instrs[len(b.Instrs)-1].(*ssa.If)
-		if !ok {
-			continue
-		}
-		cmp, ok := iff.Cond.(*ssa.BinOp)
-		if !ok || cmp.Op != token.LSS || cmp.Y != ssa.Value(feeCall) {
-			continue
-		}
-		if p.linearize(cmp.X, 0).String() == restL.String() {
+	inFrame(func() {
+		for _, b := range body.Blocks {
+			if len(b.Instrs) == 0 {
+				continue
+			}
+			iff, ok := b.Instrs[len(b.Instrs)-1].(*ssa.If)
+			if !ok {
+				continue
+			}
+			cmp, ok := iff.Cond.(*ssa.BinOp)
+			if !ok || cmp.Op != token.LSS || cmp.Y != ssa.Value(feeCall) {
+				continue
+			}
+			if p.linearize(cmp.X, 0).String() != restL.String() {
+				continue
+			}
 			okRetry = true
-			// true successor flows to the loop header where the targetFee phi takes feeCall
+			// the value the fee target takes for the next pass
+			retarget := []ssa.Value{feeCall}
+			succs := map[*ssa.BasicBlock]bool{b.Succs[0]: true, b: true}
+			if site != nil {
+				// one pass is a private part: on the retry edge it hands the required fee back as a result, and the
+				// driver loop takes that result as the next target
+				retarget = nil
+				succs = nil
+				for _, bb := range body.Blocks {
+					r, ok := bb.Instrs[len(bb.Instrs)-1].(*ssa.Return)
+					if !ok || !(bb == b.Succs[0] || b.Succs[0].Dominates(bb)) {
+						continue
+					}
+					for k, rv := range r.Results {
+						if rv != ssa.Value(feeCall) {
+							continue
+						}
+						for _, u := range usesOf(site) {
+							if ex, ok := u.(*ssa.Extract); ok && ex.Index == k {
+								retarget = append(retarget, ex)
+							}
+						}
+					}
+				}
+			}
 			for _, l := range loopsOf(fn) {
 				if l.Kind != "for" {
 					continue
@@ -839,42 +919,46 @@ func checkAuthor(c *Ctx, fn *ssa.Function) {
 						continue
 					}
 					for i, e := range ph.Edges {
-						if e == ssa.Value(feeCall) && (l.Header.Preds[i] == b.Succs[0] || l.Header.Preds[i] == b) {
-							okRetarget = true
+						for _, rt := range retarget {
+							if stripConv(e) == rt && (succs == nil || succs[l.Header.Preds[i]]) {
+								okRetarget = true
+							}
 						}
 					}
 				}
 			}
 		}
-	}
+	})
 	c.Check("C07-R3", "retry-test-uses-required-fee", feeCall.Pos(), okRetry,
 		"the remainder (inputs - outputs) is not compared with the required fee of the counted inputs before building the transaction (an underpaying transaction can be returned)")
 	c.Check("C07-R3", "retry-retargets-with-required-fee", feeCall.Pos(), okRetarget, "on retry the fee target is not raised to the required fee")
 	// insufficient funds only when inputAmount < target + targetFee
 	nIns := 0
-	for _, b := range fn.Blocks {
-		for _, ins := range b.Instrs {
-			r, ok := ins.(*ssa.Return)
-			if !ok || len(r.Results) != 2 {
-				continue
-			}
-			mi, ok := r.Results[1].(*ssa.MakeInterface)
-			if !ok || !strings.Contains(mi.X.Type().String(), "insufficientFundsError") {
-				continue
-			}
-			nIns++
-			forms := p.guardForms(b)
-			okG := false
-			for _, f := range forms {
-				// inputAmount - target - targetFee < 0
-				if strings.HasSuffix(f, " < 0") && strings.Contains(f, "+1*"+inAmt) && strings.Contains(f, "-1*call:SumOutputValues(+1*param#0 +0)") && strings.Contains(f, "-1*phi:targetFee") && strings.HasSuffix(f, "+0 < 0") {
-					okG = true
+	inFrame(func() {
+		for _, b := range body.Blocks {
+			for _, ins := range b.Instrs {
+				r, ok := ins.(*ssa.Return)
+				if !ok || len(r.Results) < 2 {
+					continue
 				}
+				mi, ok := r.Results[len(r.Results)-1].(*ssa.MakeInterface)
+				if !ok || !strings.Contains(mi.X.Type().String(), "insufficientFundsError") {
+					continue
+				}
+				nIns++
+				forms := p.guardForms(b)
+				okG := false
+				for _, f := range forms {
+					// inputAmount - target - targetFee < 0
+					if strings.HasSuffix(f, " < 0") && strings.Contains(f, "+1*"+inAmt) && strings.Contains(f, "-1*call:SumOutputValues(+1*param#0 +0)") && strings.Contains(f, "-1*phi:targetFee") && strings.HasSuffix(f, "+0 < 0") {
+						okG = true
+					}
+				}
+				c.Check("C07-R3", "insufficient-funds-only-when-short", r.Pos(), okG,
+					"insufficient funds is reported on a path not guarded by 'inputs < outputs + fee target' (guards: "+strings.Join(forms, " & ")+")")
 			}
-			c.Check("C07-R3", "insufficient-funds-only-when-short", r.Pos(), okG,
-				"insufficient funds is reported on a path not guarded by 'inputs < outputs + fee target' (guards: "+strings.Join(forms, " & ")+")")
 		}
-	}
+	})
 	c.Floor("C07-R3", "insufficient-funds returns", nIns, 1)
 	// the change append: guarded by amount != 0 and not dust at DefaultRelayFeePerKb, onto a capacity-clamped slice
 	nApp := 0
@@ -1511,10 +1595,20 @@ func checkWitnessSignaturesUseCompressedKeys(c *Ctx, rule string) {
 			}
 			n++
 			last := stripConv(call.Call.Args[len(call.Call.Args)-1])
-			k, isK := last.(*ssa.Const)
-			ok := isK && k.Value != nil && k.Value.String() == "true"
-			c.Check(rule, "witness-signature-uses-compressed-key:"+fn.Name(), call.Pos(), ok,
-				fnName(fn)+" lets the secrets source decide whether the public key in the witness is compressed: for an uncompressed key the witness carries a 65-byte key, 8 vB per input more than RedeemP2WPKHInputWitnessWeight budgets, so the fee is below the requested rate on the signed size")
+			isTrue := func(v ssa.Value) bool {
+				k, isK := stripConv(v).(*ssa.Const)
+				return isK && k.Value != nil && k.Value.String() == "true"
+			}
+			detail := " lets the secrets source decide whether the public key in the witness is compressed: for an uncompressed key the witness carries a 65-byte key, 8 vB per input more than RedeemP2WPKHInputWitnessWeight budgets, so the fee is below the requested rate on the signed size"
+			// two signers folded into one that is told which one it is by a bool parameter: each caller's variant is
+			// judged on its own, under the caller's name (the choice merged at an `if <param>`)
+			if per := specialiseByBoolParam(p, last, fn); len(per) > 0 {
+				for _, sp := range per {
+					c.Check(rule, "witness-signature-uses-compressed-key:"+outermost(sp.caller.Parent()).Name(), call.Pos(), isTrue(sp.val), fnName(outermost(sp.caller.Parent()))+detail)
+				}
+				continue
+			}
+			c.Check(rule, "witness-signature-uses-compressed-key:"+fn.Name(), call.Pos(), isTrue(last), fnName(fn)+detail)
 		}
 	}
 	c.Floor(rule, "witness signatures made by the signer", n, 2)
@@ -1592,28 +1686,6 @@ func checkEstimatorArgumentKinds(c *Ctx, rule string) {
 		}
 		return ""
 	}
-	// the increments (x + 1) a counter value is built from, through merges only
-	var increments func(v ssa.Value, seen map[ssa.Value]bool) []*ssa.BinOp
-	increments = func(v ssa.Value, seen map[ssa.Value]bool) []*ssa.BinOp {
-		v = stripConv(v)
-		if seen[v] {
-			return nil
-		}
-		seen[v] = true
-		switch x := v.(type) {
-		case *ssa.Phi:
-			var out []*ssa.BinOp
-			for _, e := range x.Edges {
-				out = append(out, increments(e, seen)...)
-			}
-			return out
-		case *ssa.BinOp:
-			if k, ok := constInt(x.Y); ok && k == 1 && x.Op == token.ADD {
-				return []*ssa.BinOp{x}
-			}
-		}
-		return nil
-	}
 	// the kind of the arm an increment sits in
 	armKind := func(bo *ssa.BinOp) string {
 		b := bo.Block()
@@ -1662,6 +1734,7 @@ func checkEstimatorArgumentKinds(c *Ctx, rule string) {
 		}
 		return ""
 	}
+	increments := newCountTracer(p)
 	n := 0
 	for _, fn := range p.FuncsIn("wallet/txauthor") {
 		for _, ci := range callsOf(fn) {
@@ -1674,7 +1747,7 @@ func checkEstimatorArgumentKinds(c *Ctx, rule string) {
 				if want == "" {
 					continue
 				}
-				incs := increments(call.Call.Args[i], map[ssa.Value]bool{})
+				incs := increments(call.Call.Args[i], 0, map[ssa.Value]bool{})
 				if len(incs) == 0 {
 					continue // a constant, or a count that is not built by counting here
 				}
@@ -1694,4 +1767,247 @@ func checkEstimatorArgumentKinds(c *Ctx, rule string) {
 		}
 	}
 	c.Floor(rule, "per-kind input counts handed to the size estimator", n, 4)
+}
+
+type boolSpecialisation struct {
+	caller ssa.CallInstruction
+	val    ssa.Value
+}
+
+// specialiseByBoolParam: v is a two-way merge decided by `if <bool parameter of fn>` (fn unexported), and every caller
+// passes a constant for that parameter: the value v has for each caller.
+func specialiseByBoolParam(p *Program, v ssa.Value, fn *ssa.Function) []boolSpecialisation {
+	ph, ok := v.(*ssa.Phi)
+	if !ok || len(ph.Edges) != 2 || fn.Object() == nil || fn.Object().Exported() {
+		return nil
+	}
+	d := ph.Block().Idom()
+	if d == nil || len(d.Instrs) == 0 {
+		return nil
+	}
+	iff, ok := d.Instrs[len(d.Instrs)-1].(*ssa.If)
+	if !ok {
+		return nil
+	}
+	cond, neg := unwrapNot(iff.Cond)
+	prm, ok := stripConv(cond).(*ssa.Parameter)
+	if !ok || prm.Parent() != fn {
+		return nil
+	}
+	idx := paramIndex(fn, prm)
+	// which edge of the merge is taken when the condition holds
+	whenTrue := -1
+	for i, pred := range ph.Block().Preds {
+		switch {
+		case pred == d && d.Succs[0] == ph.Block():
+			whenTrue = i
+		case pred != d && (d.Succs[0] == pred || d.Succs[0].Dominates(pred)) && d.Succs[0] != ph.Block():
+			whenTrue = i
+		}
+	}
+	if whenTrue < 0 {
+		return nil
+	}
+	var out []boolSpecialisation
+	for _, cs := range p.realCallers(fn) {
+		args := cs.Common().Args
+		if idx < 0 || idx >= len(args) {
+			return nil
+		}
+		b, isC := constBool(stripConv(args[idx]))
+		if !isC {
+			return nil
+		}
+		take := whenTrue
+		if b == neg { // the condition is false for this caller
+			take = 1 - whenTrue
+		}
+		out = append(out, boolSpecialisation{cs, ph.Edges[take]})
+	}
+	return out
+}
+
+// newCountTracer returns the function that finds the increments (x + 1) a count of the author is built from: through
+// merges, through the results of the package's own helpers (a counting helper with several results, or one returning a
+// small struct of counts), through parameters of private parts, and through the fields of such a struct (all increments
+// stored to that field anywhere in the package).
+func newCountTracer(p *Program) func(v ssa.Value, depth int, seen map[ssa.Value]bool) []*ssa.BinOp {
+	pkgPath := rootMod + "/wallet/txauthor"
+	fieldIncs := map[fieldCell][]*ssa.BinOp{}
+	fieldIncsDone := false
+	collectFieldIncs := func() {
+		if fieldIncsDone {
+			return
+		}
+		fieldIncsDone = true
+		for _, fn := range p.FuncsIn("wallet/txauthor") {
+			for _, b := range fn.Blocks {
+				for _, ins := range b.Instrs {
+					st, ok := ins.(*ssa.Store)
+					if !ok {
+						continue
+					}
+					fc, ok := privateFieldCell(st.Addr)
+					if !ok {
+						continue
+					}
+					if bo, ok := stripConv(st.Val).(*ssa.BinOp); ok && bo.Op == token.ADD {
+						if k, isK := constInt(bo.Y); isK && k == 1 {
+							fieldIncs[fc] = append(fieldIncs[fc], bo)
+						}
+					}
+				}
+			}
+		}
+	}
+	fieldCellOfRead := func(v ssa.Value) (fieldCell, bool) {
+		switch x := v.(type) {
+		case *ssa.UnOp:
+			if x.Op == token.MUL {
+				return privateFieldCell(x.X)
+			}
+		case *ssa.Field:
+			t := x.X.Type()
+			if named, ok := t.(*types.Named); ok && named.Obj().Pkg() != nil && !named.Obj().Exported() {
+				if _, isStruct := named.Underlying().(*types.Struct); isStruct {
+					return fieldCell{named, x.Field}, true
+				}
+			}
+		}
+		return fieldCell{}, false
+	}
+	var increments func(v ssa.Value, depth int, seen map[ssa.Value]bool) []*ssa.BinOp
+	increments = func(v ssa.Value, depth int, seen map[ssa.Value]bool) []*ssa.BinOp {
+		v = stripConv(v)
+		if seen[v] || depth > 6 {
+			return nil
+		}
+		seen[v] = true
+		if fc, ok := fieldCellOfRead(v); ok {
+			collectFieldIncs()
+			return fieldIncs[fc]
+		}
+		var out []*ssa.BinOp
+		switch x := v.(type) {
+		case *ssa.Phi:
+			for _, e := range x.Edges {
+				out = append(out, increments(e, depth, seen)...)
+			}
+		case *ssa.BinOp:
+			if k, ok := constInt(x.Y); ok && k == 1 && x.Op == token.ADD {
+				return []*ssa.BinOp{x}
+			}
+		case *ssa.UnOp:
+			if al, ok := x.X.(*ssa.Alloc); ok && x.Op == token.MUL {
+				for _, st := range storesTo(al) {
+					out = append(out, increments(st.Val, depth, seen)...)
+				}
+			}
+		case *ssa.Parameter:
+			f := x.Parent()
+			if idx := paramIndex(f, x); idx >= 0 && f.Object() != nil && !f.Object().Exported() {
+				for _, cs := range p.realCallers(f) {
+					if args := cs.Common().Args; idx < len(args) {
+						out = append(out, increments(args[idx], depth+1, seen)...)
+					}
+				}
+			}
+		case *ssa.Extract, *ssa.Call:
+			var call *ssa.Call
+			idx := 0
+			if ex, ok := x.(*ssa.Extract); ok {
+				call, _ = ex.Tuple.(*ssa.Call)
+				idx = ex.Index
+			} else {
+				call = x.(*ssa.Call)
+			}
+			if call == nil {
+				break
+			}
+			g := call.Call.StaticCallee()
+			if g == nil || len(g.Blocks) == 0 || fnPkgPath(g) != pkgPath {
+				break
+			}
+			for _, b := range g.Blocks {
+				if r, ok := b.Instrs[len(b.Instrs)-1].(*ssa.Return); ok && idx < len(r.Results) {
+					out = append(out, increments(r.Results[idx], depth+1, seen)...)
+				}
+			}
+		}
+		return out
+	}
+	return increments
+}
+
+// loopBoundIs: l is a counting loop `for i := 0; i < len(x); i++` whose bound x satisfies is.
+func loopBoundIs(p *Program, l *Loop, is func(ssa.Value) bool) bool {
+	if l == nil || len(l.Header.Instrs) == 0 {
+		return false
+	}
+	iff, ok := l.Header.Instrs[len(l.Header.Instrs)-1].(*ssa.If)
+	if !ok {
+		return false
+	}
+	cmp, ok := iff.Cond.(*ssa.BinOp)
+	if !ok || cmp.Op != token.LSS {
+		return false
+	}
+	call, ok := stripConv(cmp.Y).(*ssa.Call)
+	if !ok || calleeShort(&call.Call) != "len" || len(call.Call.Args) != 1 {
+		return false
+	}
+	return is(call.Call.Args[0])
+}
+
+// estSite: a call of the size estimator reached from the author, with the chain of private parts it was reached through
+// (each with the arguments of its call: the frames under which the estimator's arguments are to be read) and whether some
+// link of the chain sits inside a `for` loop (the author's retry loop).
+type estSite struct {
+	call   *ssa.Call
+	chain  []*ssa.Call
+	inLoop bool
+}
+
+func estimatorSites(p *Program, root *ssa.Function) []estSite {
+	var out []estSite
+	var walk func(f *ssa.Function, chain []*ssa.Call, inLoop bool, depth int)
+	walk = func(f *ssa.Function, chain []*ssa.Call, inLoop bool, depth int) {
+		loops := loopsOf(f)
+		for _, ci := range callsOf(f) {
+			call, ok := ci.(*ssa.Call)
+			if !ok {
+				continue
+			}
+			in := inLoop
+			for _, l := range loops {
+				if l.Kind == "for" && l.Blocks[call.Block()] {
+					in = true
+				}
+			}
+			if calleeShort(&call.Call) == "EstimateVirtualSize" {
+				out = append(out, estSite{call, append([]*ssa.Call(nil), chain...), in})
+				continue
+			}
+			h := call.Call.StaticCallee()
+			if h == nil || len(h.Blocks) == 0 || depth >= 3 || h == f || fnPkgPath(h) != fnPkgPath(root) || h.Object() == nil || h.Object().Exported() {
+				continue
+			}
+			walk(h, append(chain, call), in, depth+1)
+		}
+	}
+	walk(root, nil, false, 0)
+	return out
+}
+
+// under runs f with the frames of the site's chain pushed.
+func (s estSite) under(p *Program, f func()) {
+	var rec func(i int)
+	rec = func(i int) {
+		if i == len(s.chain) {
+			f()
+			return
+		}
+		p.withFrame(s.chain[i].Call.StaticCallee(), s.chain[i].Call.Args, func() { rec(i + 1) })
+	}
+	rec(0)
 }
